@@ -435,7 +435,17 @@ def _compare_baseline_results(baseline, results):
     :param results: Current list of issues
     :return: List of unmatched issues
     """
-    return [a for a in results if a not in baseline]
+    # every baseline issue accounts for one current issue of the same
+    # identity: an identity that occurs more often now than in the baseline
+    # is new (its occurrences are offered as candidates by the caller)
+    unmatched = []
+    remaining = list(baseline)
+    for a in results:
+        if a in remaining:
+            remaining.remove(a)
+        else:
+            unmatched.append(a)
+    return unmatched
 
 
 def _find_candidate_matches(unmatched_issues, results_list):
